@@ -359,11 +359,19 @@ def run_propagate(case, ctx):
         iph[INC[4:7]] += ae * s * (np.repeat(dts / 2, 2) * shape_t(mid_h))[:, None]
         pert_h = strapdown.Integrator(start, wa).integrate(iph)
         act_h = np.array([EC.output_difference(pert_h.iloc[2 * k], nom_h.iloc[2 * k]) for k in chk])
+        # the linear prediction along the half-interval nominal run as well: the prediction depends on the IMU interval through
+        # the nominal trajectory it is evaluated on, which sub-sampling the rows does not show (seed-23 false alarm, DESIGN 9.3)
+        if per_row:
+            ge_h, ae_h = ge[None, :] * s * shape_t(t_half)[:, None], ae[None, :] * s * shape_t(t_half)[:, None]
+        else:
+            ge_h, ae_h = ge * s, ae * s
+        lin_h, _ = error_model.propagate_errors(nom_h, err, ge_h, ae_h, wa)
+        L_h = lin_h.values[2 * chk]
         acti = np.array([to_state(EC.internal_error(pert.iloc[k], nom.iloc[k]), wa) for k in chk])
         L = lin.values[chk]
         L2 = lin2.values[chk // 2]
         M = mod.values[chk]
-        out[s] = (act, acti, L, L2, M, act_h)
+        out[s] = (act, acti, L, L2, M, act_h, L_h)
     # bound of the neglected terms: |dx(t)| <= int |Phi(t,s)| N |x(s)| ds along the model's own linear solution
     Nb = neglected(v, case['lat'], wa)
     Nf = expand_blocks(Nb, wa)
@@ -384,9 +392,9 @@ def run_propagate(case, ctx):
     bound_o = np.einsum('nij,nj->ni', Tout, bound_i)
     phi_max = np.abs(xs_full[:, -3:]).max()
     for s in (1.0, 0.1):
-        act, acti, L, L2, M, act_h = out[s]
+        act, acti, L, L2, M, act_h, L_h = out[s]
         res = np.abs(act - L)
-        disc = np.abs(L - L2) + np.abs(act - act_h)      # Euler step of propagate_errors + IMU interval of the actual runs
+        disc = np.abs(L - L2) + np.abs(act - act_h) + np.abs(L - L_h)     # Euler step of propagate_errors + IMU interval of the actual runs and of the prediction
         nl = 4 * s * s * np.array([phi_max ** 2 * (G0 * T ** 2 / 2 + v * T) + 1e-4] * 3 + [phi_max ** 2 * (G0 * T + v) + 1e-6] * 3 +
                                   [np.degrees(phi_max ** 2) / np.cos(np.radians(pmax + 1)) ** 2 + 1e-9] * 3)
         floor = np.array([1e-6] * 3 + [1e-9] * 3 + [1e-9] * 3)
@@ -407,7 +415,7 @@ def run_propagate(case, ctx):
         ctx.stat(f'model_error_s{s}', ratio)
         ctx.check(ratio <= 1.0, 'model_error_mismatch', lambda: f'case={case} scale={s}: internal-state prediction differs: max ratio {ratio:.3g}')
     # discriminating when the tolerance is well below the predicted error itself
-    act, acti, L, L2, M, act_h = out[0.1]
+    act, acti, L, L2, M, act_h, L_h = out[0.1]
     sig = np.abs(L).max(axis=0)
     tolmax = (4 * (np.abs(L - L2) + np.abs(act - act_h)) + 0.1 * bound_o).max(axis=0)
     ctx.mark_nontrivial(bool(np.sum(tolmax < 0.2 * sig) >= 4))
